@@ -9,22 +9,22 @@ open TF TF.Engine TF.Spec
 
 mutual
 theorem nodeCert_stage_nil : ∀ (node : QNode) (W : World) (miss : Bool) (vid : Vid) (L : List Ev)
-    (ss : List Stage) (evs : List Ev), NodeCert W miss node vid L ss evs → W.lim = false →
+    (ss : List Stage) (evs : List Ev), NodeCert W miss node vid L ss evs →
     ∀ (fuel : Nat), ∀ s ∈ ss, StageNil W fuel s
-  | .mk ct fields, W, miss, vid, L, ss, evs, hcert, hl, fuel, s, hs => by
+  | .mk ct fields, W, miss, vid, L, ss, evs, hcert, fuel, s, hs => by
     unfold NodeCert at hcert
     obtain ⟨V, evs', _, _, _, _, _, _, _, hF⟩ := hcert
-    exact fieldsCert_stage_nil fields W miss vid (L ++ [.vtx vid]) ss evs' hF hl fuel s hs
+    exact fieldsCert_stage_nil fields W miss vid (L ++ [.vtx vid]) ss evs' hF fuel s hs
 theorem fieldsCert_stage_nil : ∀ (fields : List QField) (W : World) (miss : Bool) (vid : Vid)
     (L : List Ev) (ss : List Stage) (evs : List Ev), FieldsCert W miss fields vid L ss evs →
-    W.lim = false → ∀ (fuel : Nat), ∀ s ∈ ss, StageNil W fuel s
-  | [], W, miss, vid, L, ss, evs, hcert, _, fuel, s, hs => by
+    ∀ (fuel : Nat), ∀ s ∈ ss, StageNil W fuel s
+  | [], W, miss, vid, L, ss, evs, hcert, fuel, s, hs => by
     unfold FieldsCert at hcert
     rw [hcert.1] at hs; cases hs
-  | .prop n dirs :: rest, W, miss, vid, L, ss, evs, hcert, hl, fuel, s, hs => by
+  | .prop n dirs :: rest, W, miss, vid, L, ss, evs, hcert, fuel, s, hs => by
     unfold FieldsCert at hcert
-    exact fieldsCert_stage_nil rest W miss vid L ss evs hcert hl fuel s hs
-  | .edge n params kind child :: rest, W, miss, vid, L, ss, evs, hcert, hl, fuel, s, hs => by
+    exact fieldsCert_stage_nil rest W miss vid L ss evs hcert fuel s hs
+  | .edge n params kind child :: rest, W, miss, vid, L, ss, evs, hcert, fuel, s, hs => by
     unfold FieldsCert at hcert
     cases kind with
     | fold fds =>
@@ -33,9 +33,9 @@ theorem fieldsCert_stage_nil : ∀ (fields : List QField) (W : World) (miss : Bo
       rcases List.mem_cons.1 hs with rfl | hmem
       · obtain ⟨fromV, hfromV⟩ := Option.isSome_iff_exists.1 facts.fromV
         simp only [StageNil]
-        rw [computeFold_nil W hl fuel f (by rw [facts.from_]; exact hfromV)]
+        rw [computeFold_nil W facts.lim fuel f (by rw [facts.from_]; exact hfromV)]
         rfl
-      · exact fieldsCert_stage_nil rest W miss vid (L ++ [.fold f.eid]) ssR evsR hR hl fuel s hmem
+      · exact fieldsCert_stage_nil rest W miss vid (L ++ [.fold f.eid]) ssR evsR hR fuel s hmem
     | plain =>
       simp only at hcert
       obtain ⟨e, ssC, ssR, evsC, evsR, rfl, rfl, hfrom, hfromV, hname, hkind, hparams, hC, hR⟩ := hcert
@@ -45,8 +45,8 @@ theorem fieldsCert_stage_nil : ∀ (fields : List QField) (W : World) (miss : Bo
         exact expandEdge_nil' W e (by rw [hfrom]; exact hfromV) htoV
           (enterVertex_nil W e.toVid toV htoV htoVid _ _ hflC)
       · rcases List.mem_append.1 hmem with h | h
-        · exact nodeCert_stage_nil child W _ e.toVid L ssC evsC hC hl fuel s h
-        · exact fieldsCert_stage_nil rest W miss vid (L ++ evsC) ssR evsR hR hl fuel s h
+        · exact nodeCert_stage_nil child W _ e.toVid L ssC evsC hC fuel s h
+        · exact fieldsCert_stage_nil rest W miss vid (L ++ evsC) ssR evsR hR fuel s h
     | optional =>
       simp only at hcert
       obtain ⟨e, ssC, ssR, evsC, evsR, rfl, rfl, hfrom, hfromV, hname, hkind, hparams, hC, hR⟩ := hcert
@@ -56,8 +56,8 @@ theorem fieldsCert_stage_nil : ∀ (fields : List QField) (W : World) (miss : Bo
         exact expandEdge_nil' W e (by rw [hfrom]; exact hfromV) htoV
           (enterVertex_nil W e.toVid toV htoV htoVid _ _ hflC)
       · rcases List.mem_append.1 hmem with h | h
-        · exact nodeCert_stage_nil child W _ e.toVid L ssC evsC hC hl fuel s h
-        · exact fieldsCert_stage_nil rest W miss vid (L ++ evsC) ssR evsR hR hl fuel s h
+        · exact nodeCert_stage_nil child W _ e.toVid L ssC evsC hC fuel s h
+        · exact fieldsCert_stage_nil rest W miss vid (L ++ evsC) ssR evsR hR fuel s h
     | recurse d =>
       simp only at hcert
       obtain ⟨e, ssC, ssR, evsC, evsR, rfl, rfl, hfrom, hfromV, hname, hkind, hparams, hC, hR⟩ := hcert
@@ -67,8 +67,8 @@ theorem fieldsCert_stage_nil : ∀ (fields : List QField) (W : World) (miss : Bo
         exact expandEdge_nil' W e (by rw [hfrom]; exact hfromV) htoV
           (enterVertex_nil W e.toVid toV htoV htoVid _ _ hflC)
       · rcases List.mem_append.1 hmem with h | h
-        · exact nodeCert_stage_nil child W _ e.toVid L ssC evsC hC hl fuel s h
-        · exact fieldsCert_stage_nil rest W miss vid (L ++ evsC) ssR evsR hR hl fuel s h
+        · exact nodeCert_stage_nil child W _ e.toVid L ssC evsC hC fuel s h
+        · exact fieldsCert_stage_nil rest W miss vid (L ++ evsC) ssR evsR hR fuel s h
 end
 
 end TF.InterpSpec
